@@ -14,7 +14,7 @@ import numpy as np
 
 warnings.filterwarnings("ignore")
 
-from implcommon import read_payload, emit, hx, unhx, guarded  # noqa: E402
+from implcommon import read_payload, emit, hx, unhx, guarded, audit  # noqa: E402
 
 
 def arr(x):
@@ -29,8 +29,10 @@ def hl(a):
     return [hx(v) for v in np.asarray(a, dtype=float).reshape(-1)]
 
 
-def per_point(a, npts, tail):
+def per_point(a, npts, tail, owner=None, what="per-frequency result"):
     """DataArray/ndarray with leading dims -> list (per point) of flat hex lists"""
+    if owner is not None:
+        audit(what, a, owner, call=what)
     v = np.asarray(getattr(a, "values", a), dtype=float)
     v = v.reshape((npts, tail))
     return [hl(v[i]) for i in range(npts)]
@@ -94,6 +96,7 @@ def bulk_of(spec, npts, lo, hi):
     for k in BULK:
         def one(k=k):
             v = fns[k]()
+            audit(k, v, spec, call="%s(%r, %r) on a spectrum with dims %r" % (k, lo, hi, list(spec.dataset["variance_density"].dims)))
             v = np.asarray(getattr(v, "values", v), dtype=float).reshape(-1)
             if v.shape[0] != npts:
                 raise ValueError("shape %r for %d points" % (v.shape, npts))
@@ -144,9 +147,9 @@ def run_spec2d(c):
     res = {}
     res["step"] = guarded(lambda: hl(spec.direction_step.values))
     for name in ("e", "a1", "b1", "a2", "b2"):
-        res[name] = guarded(lambda name=name: per_point(getattr(spec, name), npts, nf))
-    res["dirpf"] = guarded(lambda: per_point(spec.mean_direction_per_frequency, npts, nf))
-    res["sprpf"] = guarded(lambda: per_point(spec.mean_spread_per_frequency, npts, nf))
+        res[name] = guarded(lambda name=name: per_point(getattr(spec, name), npts, nf, spec, name))
+    res["dirpf"] = guarded(lambda: per_point(spec.mean_direction_per_frequency, npts, nf, spec, 'mean_direction_per_frequency'))
+    res["sprpf"] = guarded(lambda: per_point(spec.mean_spread_per_frequency, npts, nf, spec, 'mean_spread_per_frequency'))
     res["isd_dir"] = guarded(lambda: per_point(integrate_spectral_data(spec.variance_density, "direction"), npts, nf))
     res["isd_freq"] = guarded(lambda: per_point(integrate_spectral_data(spec.variance_density, "frequency"), npts, nd))
     res["isd_both"] = guarded(lambda: per_point(integrate_spectral_data(spec.variance_density, ["frequency", "direction"]), npts, 1))
@@ -159,7 +162,7 @@ def run_spec2d(c):
         s1 = spec.as_frequency_spectrum()
         o = {"cls": type(s1).__name__}
         for name in ("e", "a1", "b1", "a2", "b2"):
-            o[name] = per_point(getattr(s1, name), npts, nf)
+            o[name] = per_point(getattr(s1, name), npts, nf, s1, name)
         o["vars"] = sorted(str(k) for k in s1.dataset.variables)
         names = ["time", "latitude", "longitude", "depth", "station_quality", "frequency"]
         o["meta1"] = meta_values(s1.dataset, names)
@@ -167,8 +170,8 @@ def run_spec2d(c):
         o["depth_prop"] = hl(s1.depth.values)
         o["depth_prop2"] = hl(spec.depth.values)
         o["bulk1d"] = [bulk_of(s1, npts, lo, hi) for lo, hi in bands]
-        o["dirpf"] = per_point(s1.mean_direction_per_frequency, npts, nf)
-        o["sprpf"] = per_point(s1.mean_spread_per_frequency, npts, nf)
+        o["dirpf"] = per_point(s1.mean_direction_per_frequency, npts, nf, s1, 'mean_direction_per_frequency')
+        o["sprpf"] = per_point(s1.mean_spread_per_frequency, npts, nf, s1, 'mean_spread_per_frequency')
         return o
     res["oned"] = guarded(conv)
 
@@ -186,13 +189,13 @@ def run_spec2d(c):
                     th2 = th2 % 360.0
             sp, _ = make_2d(f, th2, E2, layout, False)
             o = {"th": hl(th2)}
-            o["e"] = per_point(sp.e, npts, nf)
-            o["a1"] = per_point(sp.a1, npts, nf)
-            o["b1"] = per_point(sp.b1, npts, nf)
-            o["a2"] = per_point(sp.a2, npts, nf)
-            o["b2"] = per_point(sp.b2, npts, nf)
-            o["dirpf"] = per_point(sp.mean_direction_per_frequency, npts, nf)
-            o["sprpf"] = per_point(sp.mean_spread_per_frequency, npts, nf)
+            o["e"] = per_point(sp.e, npts, nf, sp, 'e')
+            o["a1"] = per_point(sp.a1, npts, nf, sp, 'a1')
+            o["b1"] = per_point(sp.b1, npts, nf, sp, 'b1')
+            o["a2"] = per_point(sp.a2, npts, nf, sp, 'a2')
+            o["b2"] = per_point(sp.b2, npts, nf, sp, 'b2')
+            o["dirpf"] = per_point(sp.mean_direction_per_frequency, npts, nf, sp, 'mean_direction_per_frequency')
+            o["sprpf"] = per_point(sp.mean_spread_per_frequency, npts, nf, sp, 'mean_spread_per_frequency')
             o["bulk2d"] = [bulk_of(sp, npts, lo, hi) for lo, hi in bands]
             return o
         var_out.append(guarded(one))
@@ -217,8 +220,8 @@ def run_spec1d(c):
                               a1=stack("a1"), b1=stack("b1"), a2=stack("a2"), b2=stack("b2"), depth=m["depth"],
                               dims=m["lead_dims"] + (NAME_F,))
     res = {}
-    res["dirpf"] = guarded(lambda: per_point(spec.mean_direction_per_frequency, npts, nf))
-    res["sprpf"] = guarded(lambda: per_point(spec.mean_spread_per_frequency, npts, nf))
+    res["dirpf"] = guarded(lambda: per_point(spec.mean_direction_per_frequency, npts, nf, spec, 'mean_direction_per_frequency'))
+    res["sprpf"] = guarded(lambda: per_point(spec.mean_spread_per_frequency, npts, nf, spec, 'mean_spread_per_frequency'))
     bands = [band_args(b) for b in c["bands"]]
     res["bulk1d"] = [bulk_of(spec, npts, lo, hi) for lo, hi in bands]
     return res
